@@ -7,6 +7,7 @@ import (
 	"os"
 	"sort"
 	"strings"
+	"time"
 
 	"golang.org/x/tools/go/ssa"
 )
@@ -52,6 +53,7 @@ type mutKey struct {
 	fn    *ssa.Function
 	idx   int // parameter index; free variable i is -(i+1)
 	short bool
+	cont  bool // the parameter is (a reference to) a container holding references into the object
 }
 
 type mutSum struct {
@@ -59,6 +61,8 @@ type mutSum struct {
 	why        mutWhy
 	contWrites bool // may write a container holding such references that it did not build itself
 	contWhy    mutWhy
+	argWrites  bool // (container parameter) may write the container it was handed
+	argWhy     mutWhy
 	undec      bool
 	undecWhy   mutWhy
 	ret        map[int]uint8 // result index -> mutRef / mutCont
@@ -87,7 +91,7 @@ func (w mutWhy) String() string {
 }
 
 func (s *mutSum) same(o *mutSum) bool {
-	if o == nil || s.writes != o.writes || s.contWrites != o.contWrites || s.undec != o.undec || len(s.ret) != len(o.ret) {
+	if o == nil || s.writes != o.writes || s.contWrites != o.contWrites || s.argWrites != o.argWrites || s.undec != o.undec || len(s.ret) != len(o.ret) {
 		return false
 	}
 	for k, v := range s.ret {
@@ -726,7 +730,7 @@ func (f *mutFlow) closure(mc *ssa.MakeClosure, v ssa.Value, isCont bool) {
 		if bnd != v {
 			continue
 		}
-		s := f.e.summary(fn, -(i + 1), f.bits[v]&mutShort != 0 && !isCont)
+		s := f.e.summary(fn, -(i + 1), f.bits[v]&mutShort != 0 && !isCont, isCont)
 		f.applySummary(mc, FuncName(fn), fmt.Sprintf("captured variable %s", fn.FreeVars[i].Name()), s, v, isCont)
 	}
 }
@@ -736,14 +740,13 @@ func (f *mutFlow) applySummary(in ssa.Instruction, callee, param string, s *mutS
 		f.eventDeep(in, "undecided", callee, callee, s.undecWhy.below(callee), nil)
 	}
 	if s.writes {
-		if isCont {
-			// the callee writes through a container it was handed: a write of the container, not of the object —
-			// and construction (delegated) when the container is this function's own
-			if c := f.cont[v]; c != nil && f.foreign[c.root] {
-				f.eventDeep(in, "cont-write", callee, callee+" writes through its "+param, s.why.below(callee), f.contLine(v))
-			}
-		} else {
-			f.eventDeep(in, "write", callee, callee+" writes through its "+param, s.why.below(callee), nil)
+		f.eventDeep(in, "write", callee, callee+" writes through its "+param, s.why.below(callee), nil)
+	}
+	if s.argWrites && isCont {
+		// the callee writes the container it was handed: a write of the container, not of the object — and
+		// construction (delegated) when the container is this function's own
+		if c := f.cont[v]; c != nil && f.foreign[c.root] {
+			f.eventDeep(in, "cont-write", callee, callee+" writes its "+param, s.argWhy.below(callee), f.contLine(v))
 		}
 	}
 	if s.contWrites {
@@ -926,11 +929,11 @@ func (f *mutFlow) call(ci ssa.CallInstruction, v ssa.Value, isCont bool) {
 			if i >= len(g.Params) {
 				continue
 			}
-			s := e.summary(g, i, short)
+			s := e.summary(g, i, short, isCont)
 			f.applySummary(ci, FuncName(g), paramName(g, i), s, v, isCont)
 			for idx, rb := range s.ret {
-				if isCont && rb&mutRef != 0 {
-					// "a reference into what it was handed": into the container
+				if isCont && rb&mutRef == 0 && rb&mutCont != 0 {
+					// (a part of) the container it was handed, or one holding what that one holds
 					f.virt2(ci, idx, v, hb, hline)
 					continue
 				}
@@ -1048,8 +1051,8 @@ func (f *mutFlow) dump(title string) {
 
 // ---- summaries ------------------------------------------------------------------------------------------
 
-func (e *mutEngine) summary(fn *ssa.Function, idx int, short bool) *mutSum {
-	k := mutKey{fn, idx, short}
+func (e *mutEngine) summary(fn *ssa.Function, idx int, short, cont bool) *mutSum {
+	k := mutKey{fn, idx, short && !cont, cont}
 	if s, ok := e.sum[k]; ok && (s.round == e.round || e.visiting[k]) {
 		return s
 	}
@@ -1077,7 +1080,14 @@ func (e *mutEngine) summary(fn *ssa.Function, idx int, short bool) *mutSum {
 		b |= mutShort
 	}
 	fl := e.newFlow(fn)
-	fl.run(map[ssa.Value]uint8{seed: b})
+	if cont {
+		// a container somebody else built: its own memory is not the object's, what is loaded from it is
+		fl.virt(seed, mutRef)
+		fl.foreign[seed] = true
+		fl.run(nil)
+	} else {
+		fl.run(map[ssa.Value]uint8{seed: b})
+	}
 	s := &mutSum{ret: fl.ret, round: e.round}
 	for _, k := range fl.evOrder {
 		ev := fl.events[k]
@@ -1091,7 +1101,11 @@ func (e *mutEngine) summary(fn *ssa.Function, idx int, short bool) *mutSum {
 				s.writes, s.why = true, w
 			}
 		case "cont-write", "cont-write-inside":
-			if !s.contWrites {
+			if cont && ev.kind == "cont-write" && ev.line[seed] {
+				if !s.argWrites {
+					s.argWrites, s.argWhy = true, w
+				}
+			} else if !s.contWrites {
 				s.contWrites, s.contWhy = true, w
 			}
 		case "undecided":
@@ -1101,7 +1115,7 @@ func (e *mutEngine) summary(fn *ssa.Function, idx int, short bool) *mutSum {
 		}
 	}
 	if dbg := os.Getenv("CTVERIF_MUTDEBUG"); dbg != "" && glob(dbg, FuncName(fn)) {
-		fl.dump(fmt.Sprintf("%s #%d short=%v round %d", FuncName(fn), idx, short, e.round))
+		fl.dump(fmt.Sprintf("%s #%d short=%v cont=%v round %d", FuncName(fn), idx, short, cont, e.round))
 	}
 	delete(e.visiting, k)
 	if !s.same(old) {
@@ -1513,6 +1527,8 @@ type mutTarget struct {
 	also    []ssa.CallInstruction    // calls that read the same memory in another form (count as readers unconditionally)
 	birth   map[ssa.Instruction]bool // instructions that produce the value (writes by them are its construction)
 	floor   int
+	flat    bool   // all obligations of the target under the one key
+	until   string // what the readers do with the value ("the entry has been derived from it")
 }
 
 // mutUnwritten decides the obligations of one target in fn; it returns the readers that receive the value.
@@ -1560,9 +1576,25 @@ func (e *mutEngine) mutUnwritten(fn *ssa.Function, t mutTarget) []ssa.CallInstru
 		}
 	}
 	sort.SliceStable(readers, func(i, j int) bool { return readers[i].name < readers[j].name })
-	r.Floor(t.key+": calls that read "+t.what+" for the entry", n, t.floor)
+	if t.flat {
+		if n < t.floor {
+			r.Fail(t.key, r.FnPos(fn), fmt.Sprintf("undecided: %d call(s) found that read %s (at least %d expected)", n, t.what, t.floor))
+		}
+	} else {
+		r.Floor(t.key+": calls that read "+t.what+" for the entry", n, t.floor)
+	}
 	if n == 0 {
 		return nil
+	}
+	until := t.until
+	if until == "" {
+		until = "the entry has been derived from it"
+	}
+	key := func(sfx string) string {
+		if t.flat {
+			return t.key
+		}
+		return t.key + sfx
 	}
 	// (a) a reader, and whatever it calls, only reads the value
 	for _, rd := range readers {
@@ -1579,13 +1611,20 @@ func (e *mutEngine) mutUnwritten(fn *ssa.Function, t mutTarget) []ssa.CallInstru
 				detail = "undecided: " + bad.why
 			}
 		}
-		r.Check(t.key+".read-only@"+rd.name, bad == nil, r.Where(rd.ci), detail)
+		if t.flat && bad == nil {
+			continue
+		}
+		r.Check(key(".read-only@"+rd.name), bad == nil, r.Where(rd.ci), detail)
 	}
 	// (b) nothing that may execute before a reader writes the value
 	nbad, late := 0, 0
 	for _, k := range fl.evOrder {
 		ev := fl.events[k]
 		if isReader[ev.in] || t.birth[ev.in] || ev.kind == "cont-write-inside" {
+			continue
+		}
+		if atExit(ev.in) {
+			late++ // deferred: runs when the function returns, after every call of its body
 			continue
 		}
 		var after []string
@@ -1615,15 +1654,81 @@ func (e *mutEngine) mutUnwritten(fn *ssa.Function, t mutTarget) []ssa.CallInstru
 		}
 		nbad++
 		if ev.kind == "undecided" {
-			r.Fail(t.key+".unwritten@"+ev.what, ev.where, "undecided: "+ev.why+"; "+strings.Join(after, ", ")+" read "+t.what+" afterwards")
+			r.Fail(key(".unwritten@"+ev.what), ev.where, "undecided: "+ev.why+"; "+strings.Join(after, ", ")+" read "+t.what+" afterwards")
 		} else {
-			r.Fail(t.key+".unwritten@"+ev.what, ev.where, t.what+" is written before the entry has been derived from it: "+ev.why+"; read afterwards by "+strings.Join(after, ", "))
+			r.Fail(key(".unwritten@"+ev.what), ev.where, t.what+" is written before "+until+": "+ev.why+"; read afterwards by "+strings.Join(after, ", "))
 		}
 	}
 	if nbad == 0 {
-		r.Pass(t.key+".unwritten", r.FnPos(fn), fmt.Sprintf("nothing that can execute before the %d call(s) reading it writes %s or memory it shares (%d values followed in %s, %d write(s) after the last read)", len(readers), t.what, len(fl.order), FuncName(fn), late))
+		r.Pass(key(".unwritten"), r.FnPos(fn), fmt.Sprintf("nothing that can execute before the %d call(s) reading it writes %s or memory it shares (%d values followed in %s, %d write(s) after the last read)", len(readers), t.what, len(fl.order), FuncName(fn), late))
 	}
 	return out
+}
+
+// atExit: the instruction takes effect when the function returns — a defer statement, or a function literal
+// that is only ever deferred.
+func atExit(in ssa.Instruction) bool {
+	switch x := in.(type) {
+	case *ssa.Defer:
+		return true
+	case *ssa.MakeClosure:
+		refs := x.Referrers()
+		if refs == nil || len(*refs) == 0 {
+			return false
+		}
+		for _, ref := range *refs {
+			if _, ok := ref.(*ssa.DebugRef); ok {
+				continue
+			}
+			d, ok := ref.(*ssa.Defer)
+			if !ok || d.Call.Value != ssa.Value(x) {
+				return false
+			}
+		}
+		return true
+	}
+	return false
+}
+
+// c01ReturnedLeafUnwritten (C01.R1): between the decode of the leaf the backend returned and buildV1SCT nothing
+// writes that leaf, and buildV1SCT only reads it.
+func c01ReturnedLeafUnwritten(r *Run, fn *ssa.Function, leaf *ssa.Alloc, build ssa.CallInstruction, decodes []ssa.CallInstruction) {
+	e := newMutEngine(r)
+	birth := map[ssa.Instruction]bool{}
+	for _, d := range decodes {
+		birth[d] = true
+	}
+	e.mutUnwritten(fn, mutTarget{key: "addChainInternal:returned-leaf-untouched", what: "the leaf decoded from the backend's reply", flat: true, until: "the SCT has been built over it",
+		seeds: map[ssa.Value]uint8{leaf: mutRef}, readers: []ssa.CallInstruction{build}, floor: 1, birth: birth})
+}
+
+// c01InputsUnwritten: the generalisation of "memory-resident parameters are never written in the callee"
+// (inputsReadOnly) to what the callee hands on: no parameter of fn that refers to memory is written through,
+// by fn or by a function it calls.
+func c01InputsUnwritten(r *Run, fn *ssa.Function, key string) {
+	e := newMutEngine(r)
+	var bad []string
+	n := 0
+	ok := e.solve(func() {
+		bad, n = nil, 0
+		for i, p := range fn.Params {
+			if !e.refBearing(p.Type()) {
+				continue
+			}
+			n++
+			s := e.summary(fn, i, false, false)
+			switch {
+			case s.writes:
+				bad = append(bad, "parameter "+p.Name()+" is written through: "+s.why.String())
+			case s.undec:
+				bad = append(bad, "undecided for parameter "+p.Name()+": "+s.undecWhy.String())
+			}
+		}
+	})
+	if !ok {
+		bad = append(bad, "undecided: the parameter-mutation summaries below "+FuncName(fn)+" do not settle")
+	}
+	r.Check(key, len(bad) == 0, r.FnPos(fn), fmt.Sprintf("neither %s nor a function it calls writes through one of its %d memory-referring parameters %s", FuncName(fn), n, strings.Join(bad, "; ")))
 }
 
 // leafSlice: the calls of fn from which the Leaf of the request handed to QueueLeaf is computed (nil + reason
@@ -1675,7 +1780,9 @@ func leafSlice(fn *ssa.Function) ([]ssa.CallInstruction, string) {
 func c01ValidatedUnwritten(r *Run) {
 	r.Rule("C01.R12")
 	if os.Getenv("CTVERIF_MUTDEBUG") != "" {
+		t0 := time.Now()
 		defer func() {
+			fmt.Fprintf(os.Stderr, "C01.R12 took %v\n", time.Since(t0))
 			for _, o := range r.Obls {
 				if o.Rule == "C01.R12" {
 					fmt.Fprintf(os.Stderr, "OBL ok=%v %s @%s: %s\n", o.OK, o.Key, o.Where, o.Detail)
